@@ -498,9 +498,14 @@ class ProposalBasedSampler(Sampler, ABC):
     @proposal.setter
     def proposal(self, proposal):
         """ Set the proposal distribution. """
+        previous = getattr(self, '_proposal', None)
         self._proposal = proposal
         if self._proposal is not None:
-            self.validate_proposal()
+            try:
+                self.validate_proposal()
+            except Exception:
+                self._proposal = previous # a refused proposal must not stay installed
+                raise
 
 
 class _BatchHandler:
